@@ -19,12 +19,12 @@ func (i Item) String() string { return i.Kind + ":" + i.Key }
 
 var (
 	annKeys   = []string{"a0", "a1", "a2", "a3", "io.k/x", "b-c", "A0"}       // "A0" / "a0": names are compared as written
-	envKeys   = []string{"E0", "E1", "E2", "E3", "PATH", "E_5", "e0", "Path"} // "e0" / "E0", "Path" / "PATH": different variables
+	envKeys   = []string{"E0", "E1", "E2", "E3", "PATH", "E_5", "e0", "Path", "E0_DIR", "PATHEXT"} // "e0" / "E0", "Path" / "PATH": different variables; "E0_DIR" / "E0", "PATHEXT" / "PATH": one name a prefix of the other
 	mountDsts = []string{"/m0", "/m1", "/m2", "/m0/sub", "/m1/a/b", "/data", "/m2/x", "/mn3/", "/mn4//y", "/mn5/./z", "/mn3", "/data/"} // "/mn3/", "/mn4//y", "/mn5/./z", "/data/" are not in filepath.Clean form; "/mn3" and "/mn3/", "/data" and "/data/" are two spellings of one path and are DIFFERENT items (destinations are compared as written)
 	devPaths  = []string{"/dev/d0", "/dev/d1", "/dev/d2", "/dev/d3", "/dev/sub/../d4", "/dev/d4"} // the last two spell one path in two ways: different items
 	cdiNames  = []string{"vendor.com/dev=c0", "vendor.com/dev=c1", "vendor.com/dev=c2", "x.org/y=z"}
 	rlTypes   = []string{"RLIMIT_NOFILE", "RLIMIT_NPROC", "RLIMIT_CORE", "RLIMIT_AS"}
-	hpSizes   = []string{"2MB", "1GB", "64KB"}
+	hpSizes   = []string{"2MB", "1GB", "64KB", "2mb", " 1GB"} // "2mb" / "2MB", " 1GB" / "1GB": page sizes are keys compared as written
 	uniKeys   = []string{"memory.high", "cpu.weight", "io.max", "-odd.key"}
 	classes   = []string{"c0", "c1", "c2", "gold", ""}
 )
@@ -442,7 +442,8 @@ func (g *G) applyAction(a *nm.Adjust, act Action, tag int) {
 		a.Res.Scal = append(a.Res.Scal, g.scalFor(it.Key, tag))
 		sortScal(a.Res)
 	case "cgroups":
-		a.Cgroups = fmt.Sprintf("/cg/p%d", tag)
+		// a path is a string: not in canonical form one time in three (trailing slash, doubled slash, dot element)
+		a.Cgroups = fmt.Sprintf("/cg/p%d", tag) + []string{"", "", "/", "//x", "/./y"}[g.r.Intn(5)]
 		if g.echoC != nil && g.echoC.Cgroups != "" && g.r.Intn(5) == 0 {
 			a.Cgroups = g.echoC.Cgroups
 		}
